@@ -593,11 +593,16 @@ pub fn batches(def: &SubjectDef, valid: &[u8], lay: &[Span], thorough: bool, see
     // --- seeded splices: overwrite / insert / delete chunks
     let n = if thorough { 4096 } else { 128 };
     let mut sp = vec![];
+    // splices land in the body: behind the fixed-width header fields, which the sweeps cover
+    let mut body_start = lay.iter().filter(|f| f.kind == Kind::Header).map(|f| f.off + f.len).max().unwrap_or(0);
+    if body_start + 66 > len {
+        body_start = 0;
+    }
     if len > 2 {
         for i in 0..n {
             let l = 1 + (rng.next_u32() as usize % 64.min(len - 1));
             let src = rng.next_u64() as usize % (len - l + 1);
-            let dst = rng.next_u64() as usize % (len - l + 1);
+            let dst = body_start + rng.next_u64() as usize % (len - body_start - l + 1);
             let chunk = valid[src..src + l].to_vec();
             let (mu, cls) = match i % 3 {
                 0 => (Mu::Splice { off: dst, del: l, ins: chunk }, "splice-overwrite"),
